@@ -682,6 +682,10 @@ DIRECTED_ENTRY = [
 
 
 def run(ctx):
+    if not ctx.quick and ctx.shard == ctx.nshards - 1:
+        # extra workload: the repository's own tests as a generator of realistic API events under the sentinels
+        from rv.suite_workload import run_suite_under_sentinels
+        run_suite_under_sentinels(ctx)
     if ctx.shard == 0:
         for c in DIRECTED:
             ctx.run_case(judge, dict(c))
